@@ -41,8 +41,9 @@ type c05Case struct {
 }
 
 type c05Sev struct {
-	Rule int    `json:"rule"`
-	Sev  string `json:"sev"`
+	Rule     int    `json:"rule"`
+	Sev      string `json:"sev"`
+	Reporter string `json:"reporter"`
 }
 
 type c05Shown struct {
@@ -100,6 +101,10 @@ func c05Config(reps []c05Req, ci bool) string {
 			fmt.Fprintf(&b, "rule {\n  match {\n    name = \"r%d\"\n  }\n  report {\n    comment  = \"c%d\"\n    severity = \"%s\"\n  }\n}\n", k+1, r.C, r.Sev)
 		case "label":
 			fmt.Fprintf(&b, "rule {\n  match {\n    name = \"r%d\"\n  }\n  label \"t%d\" {\n    required = true\n    severity = \"%s\"\n  }\n}\n", k+1, r.C, r.Sev)
+		case "twin":
+			// a generic "label required" (warning) and a strict "label required with a value" block on the same rule
+			fmt.Fprintf(&b, "rule {\n  match {\n    name = \"r%d\"\n  }\n  label \"t%d\" {\n    required = true\n    severity = \"warning\"\n  }\n}\n", k+1, r.C)
+			fmt.Fprintf(&b, "rule {\n  match {\n    name = \"r%d\"\n  }\n  label \"t%d\" {\n    required = true\n    value    = \"x.*\"\n    severity = \"%s\"\n  }\n}\n", k+1, r.C, r.Sev)
 		}
 	}
 	return b.String()
@@ -175,7 +180,7 @@ func c05Run(pint, dir, jsonPath string, env []string, args []string, rec *c05Rec
 			if len(r.Lines) == 0 {
 				return fmt.Errorf("json report without lines: %s", b)
 			}
-			rec.JSON = append(rec.JSON, c05Sev{Rule: (r.Lines[0] + 2) / 3, Sev: r.Severity})
+			rec.JSON = append(rec.JSON, c05Sev{Rule: (r.Lines[0] + 2) / 3, Sev: r.Severity, Reporter: r.Reporter})
 		}
 	}
 	lines := strings.Split(se, "\n")
